@@ -511,8 +511,153 @@ func extractSites(pkgs []*packages.Package) []byte {
 		}
 		fmt.Fprintf(&b, "  (%s, %v)%s\n", leanString(n), aliasing[n], sep)
 	}
+	b.WriteString("]\n\n")
+	// ---- hidden state: writes to package-level variables outside init(), and the unexported fields of verify.Options
+	gw := packageStateWrites(pkgs)
+	b.WriteString("/-- (file, function, package-level variable) for every assignment / inc-dec / address-taking of a package-level variable\n    outside `init` in the library files of the verification, validation, parsing and client paths -/\n")
+	b.WriteString("def packageStateWrites : List (String × String × String) := [\n")
+	for i, w := range gw {
+		sep := ","
+		if i == len(gw)-1 {
+			sep = ""
+		}
+		fmt.Fprintf(&b, "  (%s, %s, %s)%s\n", leanString(w[0]), leanString(w[1]), leanString(w[2]), sep)
+	}
+	b.WriteString("]\n\n")
+	b.WriteString("/-- the unexported fields of verify.Options (state a call can leave behind in the caller's options), with their types -/\n")
+	b.WriteString("def optionsHiddenFields : List (String × String) := [\n")
+	hf := optionsHiddenFields(pkgs)
+	for i, f := range hf {
+		sep := ","
+		if i == len(hf)-1 {
+			sep = ""
+		}
+		fmt.Fprintf(&b, "  (%s, %s)%s\n", leanString(f[0]), leanString(f[1]), sep)
+	}
 	b.WriteString("]\n\nend Tdx.Gen\n")
 	return b.Bytes()
+}
+
+// stateFiles: library files whose functions run during parsing, verification, validation, extension extraction and quote
+// fetching; a write to a package-level variable there is state shared between calls and goroutines.
+var stateFiles = map[string]bool{
+	"abi/abi.go": true, "validate/validate.go": true, "verify/verify.go": true, "pcs/pcs.go": true,
+	"client/client.go": true, "rtmr/ccel.go": true, "rtmr/extend.go": true, "verify/trust/trust.go": true,
+}
+
+func rootIdent(e ast.Expr) *ast.Ident {
+	for {
+		switch x := e.(type) {
+		case *ast.Ident:
+			return x
+		case *ast.SelectorExpr:
+			e = x.X
+		case *ast.IndexExpr:
+			e = x.X
+		case *ast.StarExpr:
+			e = x.X
+		case *ast.ParenExpr:
+			e = x.X
+		case *ast.SliceExpr:
+			e = x.X
+		default:
+			return nil
+		}
+	}
+}
+
+func packageStateWrites(pkgs []*packages.Package) [][3]string {
+	var out [][3]string
+	for _, p := range pkgs {
+		sp := shortPkg(p)
+		isPkgVar := func(e ast.Expr) (string, bool) {
+			id := rootIdent(e)
+			if id == nil {
+				return "", false
+			}
+			obj, ok := p.TypesInfo.Uses[id].(*types.Var)
+			if !ok || obj.Pkg() == nil || obj.Parent() != obj.Pkg().Scope() {
+				return "", false
+			}
+			return obj.Pkg().Name() + "." + obj.Name(), true
+		}
+		for _, f := range p.Syntax {
+			rel := sp + "/" + filepath.Base(p.Fset.Position(f.Pos()).Filename)
+			if !stateFiles[rel] {
+				continue
+			}
+			for _, decl := range f.Decls {
+				fd, ok := decl.(*ast.FuncDecl)
+				if !ok || fd.Body == nil || (fd.Recv == nil && fd.Name.Name == "init") {
+					continue
+				}
+				fn := funcName(fd)
+				ast.Inspect(fd.Body, func(n ast.Node) bool {
+					switch s := n.(type) {
+					case *ast.AssignStmt:
+						if s.Tok == token.DEFINE {
+							return true
+						}
+						for _, l := range s.Lhs {
+							if v, ok := isPkgVar(l); ok {
+								out = append(out, [3]string{rel, fn, v})
+							}
+						}
+					case *ast.IncDecStmt:
+						if v, ok := isPkgVar(s.X); ok {
+							out = append(out, [3]string{rel, fn, v})
+						}
+					case *ast.UnaryExpr:
+						if s.Op == token.AND {
+							if v, ok := isPkgVar(s.X); ok {
+								out = append(out, [3]string{rel, fn, "&" + v})
+							}
+						}
+					case *ast.CallExpr:
+						// pointer-receiver methods on a package-level variable (sync.Pool.Get/Put, Once.Do, map/cache objects …)
+						if sel, ok := s.Fun.(*ast.SelectorExpr); ok {
+							if selInfo, ok := p.TypesInfo.Selections[sel]; ok && selInfo.Kind() == types.MethodVal {
+								if v, ok := isPkgVar(sel.X); ok {
+									if sig, ok := selInfo.Obj().Type().(*types.Signature); ok && sig.Recv() != nil {
+										if _, ptr := sig.Recv().Type().(*types.Pointer); ptr {
+											out = append(out, [3]string{rel, fn, v + "." + sel.Sel.Name + "()"})
+										}
+									}
+								}
+							}
+						}
+					}
+					return true
+				})
+			}
+		}
+	}
+	sort.Slice(out, func(i, j int) bool { return out[i][0]+out[i][1]+out[i][2] < out[j][0]+out[j][1]+out[j][2] })
+	return out
+}
+
+func optionsHiddenFields(pkgs []*packages.Package) [][2]string {
+	var out [][2]string
+	for _, p := range pkgs {
+		if shortPkg(p) != "verify" {
+			continue
+		}
+		obj := p.Types.Scope().Lookup("Options")
+		if obj == nil {
+			continue
+		}
+		st, ok := obj.Type().Underlying().(*types.Struct)
+		if !ok {
+			continue
+		}
+		for i := 0; i < st.NumFields(); i++ {
+			f := st.Field(i)
+			if !f.Exported() {
+				out = append(out, [2]string{f.Name(), types.TypeString(f.Type(), func(q *types.Package) string { return q.Name() })})
+			}
+		}
+	}
+	return out
 }
 
 func derefNamed(t types.Type) (*types.Named, bool) {
